@@ -1,10 +1,12 @@
 /* drv_cv.c — cross-validation bookkeeping and out-of-sample predictions (C05)
  * algo: 0 PLS (nlv given), 4 MLR, 5 LDA */
 #include "proto.h"
+/* scaling options of the learner (x, y), set by the line `opts xs ys`; used by the validation calls and by the refit alike */
+static int g_xs = 1, g_ys = 0;
 static void refit_predict(long algo, size_t nlv, matrix *xtr, matrix *ytr, matrix *xte, matrix *out)
 {
   if(algo == 0){
-    PLSMODEL *m; NewPLSModel(&m); PLS(xtr, ytr, nlv, 1, 0, m, NULL);
+    PLSMODEL *m; NewPLSModel(&m); PLS(xtr, ytr, nlv, g_xs, g_ys, m, NULL);
     PLSYPredictorAllLV(xte, m, NULL, out); DelPLSModel(&m);
   }
   else if(algo == 4){
@@ -22,6 +24,7 @@ int main(void)
 {
   char op[64];
   while(rd_tok(op, sizeof op)){
+    if(!strcmp(op, "opts")){ g_xs = (int)rd_long(); g_ys = (int)rd_long(); continue; }
     if(!strcmp(op, "groups")){
       unsigned int seed = (unsigned int)rd_long(); size_t ng = rd_size(), nobj = rd_size(); matrix *gid; initMatrix(&gid);
       random_kfold_group_generator(gid, ng, nobj, &seed); pr_matrix("gid", gid); DelMatrix(&gid);
@@ -41,7 +44,7 @@ int main(void)
     else if(!strcmp(op, "loo") || !strcmp(op, "kfold") || !strcmp(op, "boot")){
       long algo = rd_long(); size_t nlv = rd_size(); matrix *x = rd_matrix(), *y = rd_matrix(), *py, *pr; size_t nth;
       MODELINPUT in = initModelInput(); size_t cv_grp = 0, cv_it = 0;
-      in.mx = x; in.my = y; in.nlv = nlv; in.xautoscaling = 1; in.yautoscaling = 0;
+      in.mx = x; in.my = y; in.nlv = nlv; in.xautoscaling = g_xs; in.yautoscaling = g_ys;
       initMatrix(&py); initMatrix(&pr);
       if(!strcmp(op, "loo")){ nth = rd_size(); LeaveOneOut(&in, (AlgorithmType)algo, py, pr, nth, NULL, 0); }
       else if(!strcmp(op, "kfold")){ uivector *g = rd_uivector(); nth = rd_size(); KFoldCV(&in, g, (AlgorithmType)algo, py, pr, nth, NULL, 0); DelUIVector(&g); }
